@@ -11,6 +11,7 @@ from fractions import Fraction
 from lib import reflex, refparser, refnum
 
 ID = 'C08'
+TECHNIQUE = 'online reference-model monitor: results vs exact-rational oracle R3 (integer-only half-even rounding) + decimal-context invariant'
 RULE = ('expression trees of depth 1-6 over + - * / unary minus, parentheses, the six comparisons, and round(x[, n]) / floor / ceil / abs / int / '
         'sum / min / max, with literal leaves of 1-45 integer digits and 0-45 fraction digits (leading/trailing zeros, ties at the 28th digit of both '
         'parities, carries, cancellation, mixed signs), rendered with and without redundant parentheses; plus every literal alone. The oracle is '
